@@ -59,7 +59,7 @@ def mc_catalogue(ck, tier):
     models = ["A", "C"] if tier == "quick" else ["A", "B", "C", "D"]
     cfg = os.path.join(ck.work, "cat.cfg")
     open(cfg, "w").write("SPECIFICATION Spec\nCONSTANTS\n  Pairs = {%s}\n  Models = {%s}\n  Small = %s\n"
-                         "INVARIANT Inv_PairHolds Inv_MigDeviationsClassified\nCONSTRAINT Emit\nCHECK_DEADLOCK FALSE\n" %
+                         "INVARIANT Inv_PairHolds Inv_MigDeviationsClassified Inv_NoCornerForBall\nCONSTRAINT Emit\nCHECK_DEADLOCK FALSE\n" %
                          (", ".join('"%s"' % p for p in ALL_PAIRS), ", ".join('"%s"' % m for m in models),
                           "TRUE" if tier == "quick" else "FALSE"))
     res = vlib.run_tlc("MC_FastPaths", cfg, workers=workers(), timeout=3000, heap="8g")
@@ -97,7 +97,9 @@ def stratum(r):
     if p == "xvalid":
         return (r["model"], r["drift"], r["est"], r["std"], r["varz"], full(r["def"]))
     if p == "ball_mig":
-        return (r["dmaxkind"], tuple(sorted(set(r["deviation"]))), len(r["pts"]))
+        dec = [i for i, d in enumerate(r["decided"]) if d and r["tsel"][i]]
+        return (r["ndim"], r["dmaxkind"], r["dmaxclass"], any(r["corner"][i] for i in dec),
+                tuple(sorted(set(r["deviation"][i] for i in dec))), r["layout"])
     if p == "ball_nb":
         return (r["nmaxi"], r["radius2"], r["leaf"], len(r["pts"]), sum(r["side"]))
     if p == "block1":
@@ -246,7 +248,7 @@ def reduce_case(c, r):
 def opts_of(c):
     p = c["pair"]
     keys = {"covmat": ("model", "sym", "same"), "kr_unique": ("model", "drift"), "xvalid": ("model", "drift", "est", "std"),
-            "ball_mig": ("dmaxkind",), "ball_nb": ("nmaxi", "leaf"), "block1": ("model", "drift", "neigh"),
+            "ball_mig": ("dmaxkind", "dmaxclass", "ndim"), "ball_nb": ("nmaxi", "leaf"), "block1": ("model", "drift", "neigh"),
             "colcok": ("drift", "neigh", "q"), "calc": ("form", "drift", "model"), "reuse": ("neigh", "model", "drift")}[p]
     o = {k: c[k] for k in keys}
     if p == "covmat":
@@ -262,6 +264,7 @@ def refine(c, r, name, ref):
     if c["pair"] == "ball_mig" and "@" in name:
         i = int(name.split("@")[1])
         extra["category"] = c["deviation"][i]
+        extra["corner"] = c["corner"][i]
     if c["pair"] == "calc" and name == "estim" and c["drift"] == "sk":
         f = (r.get("fast") or {}).get("estim")
         g = (r.get("dense") if ref == "dense" else r.get("ref") or {})
@@ -309,7 +312,7 @@ def run(tier):
         emitted_counts[p], promised_counts[p] = len(recs), len(prom)
         if not prom:
             raise Broken("vacuous catalogue: no configuration of pair '%s' satisfies its side condition" % p)
-        n = per_pair * (2 if p in ("covmat", "calc") else 1)
+        n = per_pair * (2 if p in ("covmat", "calc", "ball_mig") else 1)
         if p == "covmat":
             # not more than one failing (empty) evaluation out of six
             ne = [r for r in prom if not r["empty"]]
@@ -416,6 +419,21 @@ def run(tier):
             raise Broken("no configuration of pair '%s' was executed" % p)
         if taken[p] == 0 and crash_known[p] == 0 and not ck.violations:
             raise Broken("pair '%s': the fast path was never confirmed to be taken" % p)
+    # every class of the migration option space must have been executed on a decided target, in particular the
+    # "corner" geometry (closest sample refused by dmax, a farther one accepted) for a box with equal components
+    mig = {}
+    for c in cases:
+        if c["pair"] != "ball_mig":
+            continue
+        for i, dec in enumerate(c["decided"]):
+            if dec and c["tsel"][i]:
+                k = "%dD/%s/%s%s" % (c["ndim"], c["dmaxkind"], c["dmaxclass"], "/corner" if c["corner"][i] else "")
+                mig[k] = mig.get(k, 0) + 1
+    for nd in (2, 3):
+        for k in ("none/empty", "l1/equal", "l1/unequal", "l2/equal", "l2/unequal", "l1/equal/corner", "l1/unequal/corner", "l2/unequal/corner"):
+            if mig.get("%dD/%s" % (nd, k), 0) == 0:
+                raise Broken("vacuous: no decided migration target of class %dD/%s was executed" % (nd, k))
+    ck.cov["migration_targets_per_class"] = mig
     ck.cov["traces_validated_against_impl"] = len(cases)
     ck.cov["executed_per_pair"] = executed
     ck.cov["fast_path_confirmed_per_pair"] = taken
